@@ -18,7 +18,14 @@ var VerifDir = "/verif"
 
 // runAll is the default Run implementation: explore every scenario and add it to the check.
 func runAll(c *explore.Check, scs []*explore.Scenario, budget time.Duration) {
+	if c.Merged {
+		return // the shard processes already explored everything; totals are merged
+	}
 	for _, s := range scs {
+		if c.ShardN > 0 {
+			s.ShardI, s.ShardN = c.ShardI, c.ShardN
+			s.Workers = 1
+		}
 		if budget > 0 && s.Deadline.IsZero() {
 			s.Deadline = time.Now().Add(budget)
 		}
